@@ -42,7 +42,7 @@ ASSUMPTIONS = [
 
 
 def budget(tier):
-    return int(os.environ.get("VERIF_BUDGET", 0)) or {"quick": 700, "thorough": 20000}[tier]
+    return int(os.environ.get("VERIF_BUDGET", 0)) or {"quick": 600, "thorough": 20000}[tier]
 
 
 # ---------------------------------------------------------------- generation
@@ -146,8 +146,54 @@ def gen_case(rng):
             "seed": rng.randrange(1 << 30)}
 
 
+def gen_adm_case(rng):
+    """datasets for get_admid / get_cmt: individuals that begin with a dose, a pre-dose sample or an EVID 2/3/4
+    record, one or two administration routes, optional compartment / admid columns
+    row = [id, time, amt, evid, cmt, adm, dv]; cmt/adm are filled in by the harness from the model's compartments"""
+    route = rng.choice(["iv", "oral", "ivoral", "ivoral"])
+    cols = {"evid": rng.random() < 0.7, "cmt": rng.random() < 0.4, "adm": rng.random() < 0.25}
+    nind = rng.randint(1, 5)
+    ids = rng.sample(range(1, 12), nind)
+    if rng.random() < 0.7:
+        ids.sort()
+    blocks = []
+    for i in ids:
+        n = rng.randint(1, 7)
+        t = Fraction(0)
+        rows = []
+        for k in range(n):
+            x = rng.random()
+            if k == 0:
+                kind = "dose" if x < 0.35 else "obs" if x < 0.65 else "e2" if x < 0.77 else "e3" if x < 0.88 else "e4"
+            else:
+                kind = "obs" if x < 0.5 else "dose" if x < 0.8 else "e2" if x < 0.87 else "e3" if x < 0.93 else "e4"
+                if rng.random() > 0.25:
+                    t = t + Fraction(rng.randint(1, 24), 2)
+            via = rng.choice(["oral", "iv"]) if route == "ivoral" else route
+            if kind in ("dose", "e4"):
+                rows.append([i, _fmt(t), _fmt(Fraction(rng.randint(1, 40), 2)), 1 if kind == "dose" else 4, via, "0"])
+            else:
+                ev = {"obs": 0, "e2": 2, "e3": 3}[kind]
+                rows.append([i, _fmt(t), "0", ev, None, _fmt(Fraction(rng.randint(1, 99), 4)) if ev == 0 else "0"])
+        blocks.append(rows)
+    if nind > 1 and rng.random() < 0.15:
+        k = rng.randrange(len(blocks))
+        if len(blocks[k]) > 1:
+            cut = rng.randrange(1, len(blocks[k]))
+            tail = blocks[k][cut:]
+            blocks[k] = blocks[k][:cut]
+            others = [j for j in range(len(blocks) + 1) if j > k + 1] or [len(blocks)]
+            pos = rng.choice(others)
+            if pos > k + 1 or len(blocks) > k + 1:
+                blocks.insert(pos, tail)
+            else:
+                blocks[k] = blocks[k] + tail
+    return {"kind": "adm", "route": route, "idname": "SUBJ" if rng.random() < 0.1 else "ID", "cols": cols,
+            "rows": [r for b in blocks for r in b], "seed": rng.randrange(1 << 30)}
+
+
 def gen_cases(rng: random.Random, n: int, tier: str):
-    return [gen_case(rng) for _ in range(n)]
+    return [gen_adm_case(rng) if rng.random() < 0.3 else gen_case(rng) for _ in range(n)]
 
 
 def _c(rows, idname="ID", unsorted=False, **cols):
@@ -187,6 +233,15 @@ def corpus_cases():
         _c([(1, 0, 10), (1, 1, 0)]),
         # SS dose keeps the group
         _c([(1, 0, 10), (1, 12, 10, 1, 1, 0, 12), (1, 12, 0), (1, 13, 0)], ss=True),
+        # get_admid: second individual starts with a pre-dose sample, third with EVID 3, fourth with EVID 4
+        {"kind": "adm", "route": "ivoral", "idname": "ID", "cols": {"evid": True, "cmt": True, "adm": False}, "seed": 2,
+         "rows": [[1, "0", "10", 1, "iv", "0"], [1, "1", "0", 0, None, "3"], [2, "0", "0", 0, None, "1"],
+                  [2, "0.5", "10", 1, "oral", "0"], [2, "2", "0", 0, None, "4"], [3, "0", "0", 3, None, "0"],
+                  [3, "1", "0", 0, None, "2"], [4, "0", "5", 4, "iv", "0"], [4, "1", "0", 0, None, "2"]]},
+        # get_cmt from an admid column
+        {"kind": "adm", "route": "ivoral", "idname": "ID", "cols": {"evid": True, "cmt": False, "adm": True}, "seed": 3,
+         "rows": [[1, "0", "10", 1, "oral", "0"], [1, "1", "0", 0, None, "3"], [1, "2", "10", 1, "iv", "0"],
+                  [1, "3", "0", 2, None, "0"], [2, "0", "0", 0, None, "1"], [2, "1", "10", 1, "iv", "0"]]},
         # regular dataset with ties away from the first dose
         _c([(1, 0, 10), (1, 1, 0), (1, 12, 10), (1, 12, 0), (1, 13, 0), (3, 0, 5), (3, 2, 0), (3, 2, 5), (3, 2, 0)]),
     ]
@@ -201,7 +256,7 @@ def shrink(case):
         c["rows"] = rows[:i] + rows[i + 1:]
         yield c
     for col in ("evid", "ss", "mdv", "addl"):
-        if case["cols"][col]:
+        if case["cols"].get(col):
             c = dict(case)
             c["cols"] = dict(case["cols"])
             c["cols"][col] = False
@@ -218,6 +273,8 @@ def worker_init():
     from pharmpy.model import ColumnInfo, DataInfo, DatasetError, Model  # noqa
     from pharmpy.modeling import data  # noqa
     warnings.filterwarnings("ignore")
+    global BASE
+    BASE = {}
 
 
 class R:
@@ -361,6 +418,8 @@ def py_expand(rows, cols):
 # ---------------------------------------------------------------- one case
 
 def run_case(case, drv):
+    if case["kind"] == "adm":
+        return run_adm_case(case, drv)
     k, mon, tags = [], [], []
     rows, df, model = build(case)
     cols = case["cols"]
@@ -774,3 +833,206 @@ def _ref_model(xr, cols, idn):
     ci = [ColumnInfo.create(c, type=types[c], datatype="float64" if df[c].dtype == np.float64 else "int32")
           for c in df.columns]
     return Model.create(name="c14ref", dataset=df, datainfo=DataInfo.create(ci))
+
+
+# ---------------------------------------------------------------- get_admid / get_cmt
+
+def _base(route):
+    if route not in BASE:
+        from pharmpy.modeling import create_basic_pk_model
+        BASE[route] = create_basic_pk_model(route)
+    return BASE[route]
+
+
+def _structure(base):
+    """what get_cmt / get_admid read of the compartmental system"""
+    odes = base.statements.ode_system
+    names = odes.compartment_names
+    dosing = odes.dosing_compartments
+    central = odes.central_compartment
+    num = lambda c: names.index(c.name) + 1
+    route_of = {}                      # 'oral' / 'iv' -> (compartment number, admid)
+    for c in dosing:
+        route_of["iv" if c == central else "oral"] = (num(c), c.doses[0].admid)
+    return {"doseCmt": num(dosing[0]), "centralNum": num(central),
+            "central": num(central) if central in dosing else None,
+            "other": next((num(c) for c in reversed(dosing) if c != central), None),
+            "remap": [(num(c), c.doses[0].admid) for c in dosing], "route_of": route_of}
+
+
+def run_adm_case(case, drv):
+    k, mon, tags = [], [], []
+    cols, idn = case["cols"], case["idname"]
+    base = _base(case["route"])
+    st = _structure(base)
+    recs = []
+    for lab, r in enumerate(case["rows"]):
+        i, t, amt, ev, via, dv = r
+        isdose = Fraction(amt) > 0
+        evid = ev if cols["evid"] else (1 if isdose else 0)
+        if isdose:
+            cnum, admid = st["route_of"][via]
+            if not cols["cmt"] and not cols["adm"]:
+                cnum, admid = st["route_of"]["oral" if "oral" in st["route_of"] else "iv"][0], None
+        else:
+            cnum, admid = st["centralNum"], 0
+        recs.append({"lab": lab, "id": int(i), "time": float(Fraction(t)), "amt": float(Fraction(amt)), "evid": evid,
+                     "rawevid": ev, "cmt": cnum if cols["cmt"] else 0, "adm": (admid or 0) if cols["adm"] else 0,
+                     "dose": isdose, "via": via, "dv": float(Fraction(dv))})
+    n = len(recs)
+    d = {idn: np.array([r["id"] for r in recs], dtype="int64"), "TIME": np.array([r["time"] for r in recs]),
+         "AMT": np.array([r["amt"] for r in recs]), "DV": np.array([r["dv"] for r in recs])}
+    types = {idn: "id", "TIME": "idv", "AMT": "dose", "DV": "dv", "ROWLAB": "unknown"}
+    if cols["evid"]:
+        d["EVID"] = np.array([r["rawevid"] for r in recs], dtype="int64")
+        types["EVID"] = "event"
+    if cols["cmt"]:
+        d["CMT"] = np.array([r["cmt"] for r in recs], dtype="int64")
+        types["CMT"] = "compartment"
+    if cols["adm"]:
+        d["ADM"] = np.array([r["adm"] for r in recs], dtype="int64")
+        types["ADM"] = "admid"
+    d["ROWLAB"] = np.arange(n, dtype="int64")
+    df = pd.DataFrame(d)
+
+    def mkmodel(frame):
+        ci = [ColumnInfo.create(c, type=types[c], datatype="float64" if frame[c].dtype == np.float64 else "int32")
+              for c in frame.columns]
+        return base.replace(dataset=frame, datainfo=DataInfo.create(ci))
+    model = mkmodel(df)
+    orig = df.copy(deep=True)
+    acfg = [int(cols["cmt"]), int(cols["adm"]), st["doseCmt"], "none" if st["central"] is None else st["central"],
+            "none" if st["other"] is None else st["other"], [[a, b] for a, b in st["remap"]]]
+    wrows = [[str(r["id"]), str(r["evid"]), str(r["cmt"]), str(r["adm"])] for r in recs]
+    # contiguous runs of one id = individuals as the event records present them
+    blocks = []
+    for j, r in enumerate(recs):
+        if j and recs[j - 1]["id"] == r["id"]:
+            blocks[-1].append(j)
+        else:
+            blocks.append([j])
+    first_kind = {recs[b[0]]["evid"] for b in blocks[1:]}
+    tags += ["kind=adm", f"route={case['route']}", f"id={idn}", f"blocks={len(blocks)}",
+             "acols=" + "".join(c[0] for c in ("evid", "cmt", "adm") if cols[c])]
+    tags += [f"later-individual-starts-evid{e}" for e in sorted(first_kind)]
+    nontrivial = len(blocks) > 1 and any(r["dose"] for r in recs) and any(not r["dose"] for r in recs)
+
+    # ------------------------------------------------ get_admid
+    remap = dict(st["remap"])
+
+    def own(r):
+        """the record's own value: route of a dose record; for other records the (remapped) compartment
+        column, 0 without one"""
+        if cols["cmt"]:
+            return remap.get(r["cmt"], r["cmt"])
+        if r["evid"] in (1, 4):
+            return remap.get(st["doseCmt"], st["doseCmt"])
+        return 0
+    if cols["adm"]:
+        ref = [r["adm"] for r in recs]
+    else:
+        ref = []
+        for b in blocks:
+            last = None
+            for j in b:
+                r = recs[j]
+                if r["evid"] in (1, 4):
+                    last = own(r)
+                    ref.append(last)
+                else:
+                    ref.append(last if last is not None else own(r))
+    ok, res = call(lambda: data.get_admid(model))
+    code_adm = None
+    if not ok:
+        if idn != "ID" and not cols["adm"] and res.startswith("KeyError: 'ID'"):
+            mon.append({"cls": "admid-id-column-name-hardcoded", "what": f"get_admid with id column {idn!r} raises {res}"})
+        elif n == 1 and res.startswith(("AttributeError", "TypeError")):
+            mon.append({"cls": "single-record-squeeze", "what": f"get_admid on a one-record dataset raised {res}"})
+        else:
+            mon.append({"cls": "internal-error", "what": f"get_admid raised {res}"})
+    else:
+        code_adm = [int(x) for x in res.tolist()]
+        tags.append("q:admid")
+        if drv is not None:
+            m = [int(x) for x in drv.ask(["admid", acfg, wrows])]
+            if m != code_adm:
+                k.append(f"get_admid: model {m} code {code_adm}")
+        if len(code_adm) != n or list(res.index) != list(range(n)):
+            mon.append({"cls": "admid-frame", "what": "ADMID series is not aligned with the records"})
+        elif code_adm != ref:
+            j = next(q for q in range(n) if code_adm[q] != ref[q])
+            b = next(b for b in blocks if j in b)
+            cls = "admid-evid4-not-a-dose" if any(recs[q]["evid"] == 4 for q in b if q <= j) else "admid-walk-mismatch"
+            mon.append({"cls": cls, "what": f"get_admid record {j} (id {recs[j]['id']}, EVID {recs[j]['evid']}): code "
+                        f"{code_adm[j]}, per-individual walk {ref[j]}; code {code_adm} walk {ref}; ids "
+                        f"{[r['id'] for r in recs]} evid {[r['evid'] for r in recs]}"})
+        # locality: an individual on its own gets the same ids as inside the dataset
+        if len(blocks) > 1:
+            for b in blocks:
+                sub = df.iloc[b].reset_index(drop=True)
+                ok2, res2 = call(lambda: data.get_admid(mkmodel(sub)))
+                if not ok2 and len(b) == 1 and res2.startswith(("AttributeError", "TypeError")):
+                    tags.append("locality-skipped-single-record-squeeze")   # known class of get_mdv, judged elsewhere
+                    continue
+                alone = [int(x) for x in res2.tolist()] if ok2 else res2
+                within = [code_adm[j] for j in b]
+                if alone != within:
+                    mon.append({"cls": "admid-not-local", "what": f"ADMID of individual {recs[b[0]]['id']} (records {b}) "
+                                f"depends on the other individuals: alone {alone}, inside the dataset {within}"})
+                    break
+            tags.append("admid-locality")
+        # add_admid: the same series as a new column, everything else untouched
+        if not cols["adm"]:
+            ok3, res3 = call(lambda: data.add_admid(model))
+            if not ok3:
+                mon.append({"cls": "internal-error", "what": f"add_admid raised {res3}"})
+            else:
+                d3 = res3.dataset
+                if list(d3.columns) != list(orig.columns) + ["ADMID"] or not d3[list(orig.columns)].equals(orig) \
+                        or list(d3[list(orig.columns)].dtypes) != list(orig.dtypes):
+                    mon.append({"cls": "add-admid-frame", "what": f"add_admid changed existing records/columns: {list(d3.columns)}"})
+                elif [int(x) for x in d3["ADMID"].tolist()] != code_adm:
+                    mon.append({"cls": "add-admid-values", "what": f"add_admid column {d3['ADMID'].tolist()} != get_admid {code_adm}"})
+                elif "admid" not in res3.datainfo.types:
+                    mon.append({"cls": "add-admid-frame", "what": "add_admid did not type the new column as admid"})
+
+    # ------------------------------------------------ get_cmt
+    if cols["cmt"]:
+        refc = [r["cmt"] for r in recs]
+    elif not cols["adm"]:
+        refc = [st["doseCmt"] if r["evid"] in (1, 4) else 0 for r in recs]
+    else:
+        refc = [st["centralNum"] if r["evid"] == 0 else (st["route_of"][r["via"]][0] if r["dose"] else 0) for r in recs]
+    ok, res = call(lambda: data.get_cmt(model))
+    if not ok:
+        if cols["adm"] and not cols["cmt"] and st["central"] is None and res.startswith("UnboundLocalError"):
+            mon.append({"cls": "cmt-central-number-unbound", "what": f"get_cmt with an admid column and a model whose central "
+                        f"compartment takes no dose raises {res}"})
+            if drv is not None and drv.ask(["cmt", acfg, wrows]) != ["err", "UnboundLocalError"]:
+                k.append("get_cmt: code raises UnboundLocalError, model does not")
+        elif n == 1 and res.startswith(("AttributeError", "TypeError")):
+            mon.append({"cls": "single-record-squeeze", "what": f"get_cmt on a one-record dataset raised {res}"})
+        else:
+            mon.append({"cls": "internal-error", "what": f"get_cmt raised {res}"})
+    else:
+        code = [int(x) for x in res.tolist()]
+        tags.append("q:cmt")
+        if drv is not None:
+            m = drv.ask(["cmt", acfg, wrows])
+            if [str(x) for x in code] != m:
+                k.append(f"get_cmt: model {m} code {code}")
+        if code != refc:
+            mon.append({"cls": "cmt-walk-mismatch", "what": f"get_cmt {code}, per-record reference {refc}"})
+        if not cols["cmt"]:
+            ok3, res3 = call(lambda: data.add_cmt(model))
+            if not ok3:
+                mon.append({"cls": "internal-error", "what": f"add_cmt raised {res3}"})
+            else:
+                d3 = res3.dataset
+                if list(d3.columns) != list(orig.columns) + ["CMT"] or not d3[list(orig.columns)].equals(orig):
+                    mon.append({"cls": "add-cmt-frame", "what": f"add_cmt changed existing records/columns: {list(d3.columns)}"})
+                elif [int(x) for x in d3["CMT"].tolist()] != code:
+                    mon.append({"cls": "add-cmt-values", "what": "add_cmt column != get_cmt"})
+    if not model.dataset.equals(orig):
+        mon.append({"cls": "input-dataset-mutated", "what": "get_admid/add_admid/get_cmt/add_cmt changed the input dataset"})
+    return {"k": k, "mon": mon, "tags": tags, "nontrivial": nontrivial}
